@@ -248,6 +248,7 @@ RULE = (
     "for uniformity (default engine, n=20000): exact volume fraction of hull intersected with up to 4 random half-spaces vs the observed "
     "count (normal approximation of the binomial, |z|<=6.5, per-test false-alarm ~8e-11) plus a centroid z-test. Non-trivial = hull with "
     "simplices of unequal volume (and interior points), a tested volume fraction, an l1 slice or a gamut sample checked by LP."
+    " Clouds carry an absolute size factor in {1e-6,1e-4,1e-2,1,1e3}."
 )
 
 PROP = Prop(
